@@ -775,6 +775,11 @@ func corpus() []desc {
 	dir(4, "c2 c2 c2 c2 c2 c2 x r2 a2 f a3")
 	dir(1, "x c2 a1 c3 x c3 f a4")
 	dir(2, "c1 a1 c2 a2 c3 a3 f a4")
+	// a request written while later items are still queued arms no flush; when those later items then expire in the queue the
+	// writer must still flush it before going idle (regression scenario for the fixed "request stays in the bufio.Writer, Do never
+	// returns" defect; the scheduler models the buffer)
+	dir(4, "d c1 d d a1 c3 a2 c3 d c4 a3 c4 a4 a6 f a7")
+	dir(2, "c9 c9 c9 c9 c1 a1 f a2 a3")
 	for _, srv := range []string{"stall", "slow", "closemid", "noread", "normal", "flaky"} {
 		for _, cp := range []int{1, 2, 4} {
 			d := desc{Op: "stress", Cap: cp, Conns: 1, Srv: srv, Seed: int64(cp)}
